@@ -291,6 +291,11 @@ Definition pred_c05 (g : ghost) (w : world) (a : action) (O : oracle) (w' : worl
           | None => if others_unchanged w i None [151; 152; 154] then [] else [1052]
           end
       | RRecoverEnd =>
+          (* opening the form page of a link (GET) decides nothing: no stored field of anybody moves,
+             in particular not the link's validity *)
+          if has_mod cfg MRecover && meth_eqb (q_meth r) GET then
+            (if others_unchanged w i None [151; 152; 153; 154; 155; 156] then [] else [1056])
+          else
           if negb (has_mod cfg MRecover && meth_eqb (q_meth r) POST) then [] else
           let tok := aget f_token vals in
           match (if pw_rules_ok vals then find_user (fun u => recover_token_of O u tok) w else None) with
